@@ -124,11 +124,11 @@ struct Baseline {
   versions: BTreeSet<u64>,
 }
 
-fn open_and_read(cfg: &Cfg, wroot: &Path, root: &Path, files: &BTreeMap<PathBuf, Vec<u8>>, dirs: &BTreeSet<PathBuf>, versions: &BTreeSet<u64>, with_probes: bool) -> Result<(Contents, ProbeResults), Outcome> {
+fn open_and_read(cfg: &Cfg, wroot: &Path, root: &Path, files: &BTreeMap<PathBuf, Vec<u8>>, dirs: &BTreeSet<PathBuf>, versions: &BTreeSet<u64>, with_probes: bool, create_if_missing: bool) -> Result<(Contents, ProbeResults), Outcome> {
   let fs = SimFs::from_image(wroot, files, dirs);
   fs.with(|c| c.record = false);
   verif::fs::mount(wroot, Arc::new(fs.clone()));
-  let s = Session::open(cfg, root, Some(fs))?;
+  let s = Session::open_with(cfg, root, Some(fs), create_if_missing)?;
   let obs = s.observe()?;
   let contents = obs.to_contents().map_err(Outcome::Err)?;
   let pr = if with_probes {
@@ -216,7 +216,7 @@ pub fn run_case_inproc(case: &CorruptCase, wroot: &Path, stats: &mut Stats, star
     }
   }
   let (files, dirs) = fs.with(|c| (c.live_files(), c.live_dirs()));
-  let base = match open_and_read(cfg, wroot, &root, &files, &dirs, &versions, true) {
+  let base = match open_and_read(cfg, wroot, &root, &files, &dirs, &versions, true, false) {
     Ok((contents, probe_results)) => Baseline {
       files,
       dirs,
@@ -323,7 +323,17 @@ pub fn run_case_inproc(case: &CorruptCase, wroot: &Path, stats: &mut Stats, star
       Mutation::Truncate { file, len } => format!("{} truncated to {} bytes", file, len),
     };
     let is_wal = class == "wal.log";
-    let res = open_and_read(cfg, wroot, &root, &files, &base.dirs, &base.versions, !is_wal);
+    // applications open either strictly or with "create if missing"; a damaged
+    // manifest must not be mistaken for a missing index
+    let odd = match &m {
+      Mutation::Flip { offset, .. } => offset % 2 == 1,
+      Mutation::Truncate { len, .. } => len % 2 == 1,
+    };
+    let create_if_missing = class == "MANIFEST.json" && odd;
+    if create_if_missing {
+      stats.inc("probe.opened_with_create_if_missing");
+    }
+    let res = open_and_read(cfg, wroot, &root, &files, &base.dirs, &base.versions, !is_wal, create_if_missing);
     let mut violation: Option<Violation> = None;
     match res {
       Err(Outcome::Panic(p)) => {
